@@ -10,7 +10,13 @@ THEOREMS = [
     "Vinegar.C19.mutex_inv",
     "Vinegar.C19.log_sequential",
     "Vinegar.C19.linearizable_run",
+    "Vinegar.C19.linearizable_run_probe",
+    "Vinegar.C19.linearizableP_sound",
+    "Vinegar.C19.linearizableP_linearizable",
     "Vinegar.C19.linearizable_lru",
+    "Vinegar.C19.linearizable_store",
+    "Vinegar.C19.linearizable_textfile",
+    "Vinegar.C19.linearizable_yaml",
     "Vinegar.C19.no_deadlock",
     "Vinegar.C19.lru_size_le",
 ]
@@ -21,18 +27,37 @@ TRUSTED_BASE = [
     "the theorems are about a lock-granularity model (acquire / load / store / release); that the code's critical sections "
     "are where the model says is established only by the enumerated schedules (exploration supporting the tie, not standing "
     "in for the theorem)",
-    "sequential behaviour of TextFileSource / DataStore / YamlTargetSource used as the reference for the linearization "
-    "search is the real code run sequentially on a fresh instance (it is verified against Lean models by C14 / C15 / C12); "
-    "for the synchronized LRU the search itself runs in Lean on the Lean model (`linearizable lruStep`)",
+    "the decision `is this observed run linearizable and does the probe made afterwards match` is taken in Lean for all four "
+    "components (`Conc.linearizableP` at `lruStep` / `storeStep` / `tfStep` / `yamlStep`, driver ops conc.lru / conc.store / "
+    "conc.textfile / conc.yaml); the step functions are the Lean models of the components' sequential behaviour that C15 "
+    "(DataStore), C14 (TextFileSource) and C11/C12 (YamlTargetSource) verify against the code — their correspondence is "
+    "trusted here and re-checked on every case by the cross-check below",
+    "not modelled, delivered by the adapter with the real libraries (as for C14 / C12): classification of the text file's "
+    "lines by `re`; rendering (vinegar's template engine), `yaml.safe_load` and the target matcher for the YAML tree; "
+    "SQLite itself (the store model is a pure map)",
+    "version strings: hashes of `vinegar.utils.version` are mapped to the model's symbolic versions through tables computed "
+    "with the real functions over the values of the scenario (text file: lines; yaml: the versions conc.yaml_versions lists "
+    "for the trees of the scenario); a hash outside the table is a result the model cannot return; stat stamps of the text "
+    "file are the fixed stamps the scenario writes",
+    "cross-check, not reference: the outcomes of the real code run sequentially on a fresh instance in every order "
+    "(`conc_adapter.sequential_outcomes`) must agree with the Lean verdict for store / text file / yaml; a disagreement is "
+    "reported as a broken correspondence (`agree = False`), not as a violation",
+    "YamlTargetSource.get_data is not one critical section (lock-wrapped LRU, per-call compiler, last-writer-wins cache "
+    "update): `linearizable_yaml` is about an idealisation; for this component only the decision procedure is in Lean and "
+    "the claim about the real interleavings rests on the enumerated schedules",
 ]
 ASSUMPTIONS = [
     "pre-emption only at source-line granularity of the traced vinegar files (bytecode-level races inside one line and C-level "
     "sqlite/GIL behaviour are outside the exploration)",
     "file changes are atomic replacements with fixed modification stamps",
+    "version_for_str / aggregate_version are injective on the values of a scenario (a collision would be reported as a "
+    "non-linearizable result); equal version of the preceding data means equal preceding data (the scenarios pass {} / '')",
 ]
 RULE = ("scenario = component (synchronized LRU cache, DataStore, TextFileSource, YamlTargetSource) × 2-3 thread programs of 1-3 "
         "calls (+ a file-rewrite pseudo-thread for the file-backed sources) × schedule (start order × 0..2 pre-emptions at "
-        "enumerated global step numbers); non-trivial = the schedule actually switched threads before completion "
+        "enumerated global step numbers); after the threads are joined a fixed probe of calls is made on the component; every run "
+        "(per-thread calls with the results the real threads got + the probe) is judged by `Conc.linearizableP` in Lean on the "
+        "Lean model of the component; non-trivial = the schedule actually switched threads before completion "
         "(switches > number of threads); distinct by SHA-1 of the case")
 BUDGET_S = {"quick": 90, "thorough": 1800}
 
@@ -54,10 +79,14 @@ def _runs(obs):
     return obs["sweep"] if "sweep" in obs else [obs]
 
 
+LEAN_COMPS = ("lru", "store", "textfile", "yaml")     # linearization search runs in Lean on the Lean model
+CROSS_CHECKED = ("store", "textfile", "yaml")         # … and is cross-checked against the real code run sequentially
+
+
 def model_requests(case, obs):
-    if case["comp"] == "lru" and "harness_exception" not in obs:
-        return [{"op": "conc.lru", "size": case["cfg"]["size"], "mark_on_update": case["cfg"].get("mark_on_update", True),
-                 "threads": case["threads"], "results": o["results"]} for o in _runs(obs) if not o.get("deadlock")]
+    if case["comp"] in LEAN_COMPS and "harness_exception" not in obs:
+        import conc_adapter
+        return [conc_adapter.lean_request(case, o, obs.get("world")) for o in _runs(obs) if not o.get("deadlock")]
     return []
 
 
@@ -71,10 +100,10 @@ def judge(case, obs, resps):
         for o in obs["sweep"]:
             sub = dict(case); sub.pop("sweep", None); sub["preempt"] = o["preempt"]
             rs = []
-            if kind == "lru" and not o.get("deadlock"):
+            if kind in LEAN_COMPS and not o.get("deadlock"):
                 rs = [resps[ri]]; ri += 1
             j = judge(sub, o, rs)
-            if not j.spec_ok:
+            if not (j.spec_ok and j.agree):
                 j.case = dict(case)
                 j.detail = dict(j.detail or {}, failing_preemption=o["preempt"])
                 return j
@@ -85,13 +114,23 @@ def judge(case, obs, resps):
     bad_err = [e for e in obs.get("errors", [])]
     if bad_err:
         return Judgement(case, False, False, {"errors": bad_err}, kind, nontrivial, "call_failed")
-    if kind == "lru":
-        ok = bool(resps[0]["ok"]["linearizable"])
+    detail = {"results": obs.get("results"), "probe": obs.get("probe"), "trace": obs.get("trace")}
+    if kind in LEAN_COMPS:
+        # the verdict: `Conc.linearizableP step` evaluated by the driver on what the real threads returned
+        lean = resps[0]["ok"]
+        ok = bool(lean["linearizable"])
+        detail["lean"] = lean
+        if kind in CROSS_CHECKED:
+            seq = bool(obs.get("in_sequential_outcomes"))
+            detail["n_sequential_outcomes"] = obs.get("n_sequential_outcomes")
+            if seq != ok:
+                # the two references (Lean model / real code run sequentially) disagree about the sequential
+                # behaviour: a broken correspondence (C14 / C15 territory), not a verdict about the threads
+                detail["references_disagree"] = {"lean_model_accepts": ok, "real_sequential_code_accepts": seq}
+                return Judgement(case, True, False, detail, kind, nontrivial, None)
     else:
-        ok = bool(obs.get("in_sequential_outcomes"))
-    detail = None if ok else {"results": obs.get("results"), "probe": obs.get("probe"), "trace": obs.get("trace"),
-                              "n_sequential_outcomes": obs.get("n_sequential_outcomes")}
-    return Judgement(case, ok, ok, detail, kind, nontrivial, None if ok else "not_linearizable")
+        raise ValueError("unknown component " + kind)
+    return Judgement(case, ok, ok, None if ok else detail, kind, nontrivial, None if ok else "not_linearizable")
 
 
 # ------------------------------------------------------------------ scenarios
